@@ -99,7 +99,7 @@ def c03(chk):
     ends = has("commit", "rollback")
     l1_stage(chk, "commit_2keys", dict(Keys=K2, MaxTx=2, MaxSteps=5, Levels={"RC", "RR"}, Ops=TXOPS),
              keep=ends, sample=7000 if quick else None)
-    l1_stage(chk, "commit_3tx_1key", dict(Keys=K1, MaxTx=3, MaxSteps=6, Levels={"RU", "RR", "SER"}, Ops={"set", "del", "begin", "commit", "rollback"}),
+    l1_stage(chk, "commit_3tx_1key", dict(Keys=K1, MaxTx=3, MaxSteps=5 if quick else 6, Levels={"RU", "RR", "SER"}, Ops={"set", "del", "begin", "commit", "rollback"}),
              keep=ends, sample=4000 if quick else 80000)
     l1_stage(chk, "commit_sim", dict(Keys=K3, MaxTx=4, MaxSteps=40, Levels={"RU", "RC", "RR", "SER"}, Ops=TXOPS),
              simulate=60 if quick else 2000, depth=40)
@@ -112,7 +112,7 @@ def c09(chk):
     gc = has("gc")
     l1_stage(chk, "gc_2keys", dict(Keys=K2, MaxTx=2, MaxSteps=5, Levels={"RU", "RC", "RR"}, Ops=TXOPS | {"gc"}),
              keep=gc, sample=6000 if quick else None)
-    l1_stage(chk, "gc_focus", dict(Keys=K1, MaxTx=3, MaxSteps=7 if quick else 8, Levels={"RC", "RR"}, Ops={"set", "del", "begin", "gc", "commit"}),
+    l1_stage(chk, "gc_focus", dict(Keys=K1, MaxTx=3, MaxSteps=6 if quick else 8, Levels={"RC", "RR"}, Ops={"set", "del", "begin", "gc", "commit"}),
              keep=gc, sample=6000 if quick else 80000)
     l1_stage(chk, "gc_sim", dict(Keys=K2, MaxTx=4, MaxSteps=50, Levels={"RU", "RC", "RR", "SER"}, Ops=TXOPS | {"gc"}),
              simulate=60 if quick else 2000, depth=50)
@@ -134,7 +134,7 @@ def c14(chk):
     quick = chk.tier == "quick"
     quiet = lambda steps: any(st["q"] for st in steps)  # noqa: E731
     ops = TXOPS | {"gc"}
-    l1_stage(chk, "disk_2keys", dict(Keys=K2, MaxTx=2, MaxSteps=6, Levels={"RC", "RR"}, Ops=ops),
+    l1_stage(chk, "disk_2keys", dict(Keys=K2, MaxTx=2, MaxSteps=5 if quick else 6, Levels={"RC", "RR"}, Ops=ops),
              keep=lambda s: s[-1]["q"] and len(s) >= 3, sample=6000 if quick else 80000)
     l1_stage(chk, "disk_reopen", dict(Keys=K2, MaxTx=1, MaxSteps=5 if quick else 6, Levels={"RC"}, Ops=ops | {"reopen"}),
              keep=lambda s: s[-1]["q"] and has("reopen")(s), sample=3000 if quick else 40000)
